@@ -173,12 +173,18 @@ def paths_task():
     return Task(f"{PROP}.S.paths", PROP, "ford.settings / ford.parse_arguments", run)
 
 
+def _display_spellings():
+    return __import__("bounded.c05", fromlist=["x"]).display_spellings()
+
+
 def build(tier, seed):
     set_tier(tier)
     def _meta():
         return metadata.meta_preprocessor(PROP)
     _meta.__name__ = "meta_preprocessor"
-    tasks = [a_task(PROP, settingsc.parse_to_dict), a_task(PROP, _meta), order_task(), argparse_task(), from_string_task(), paths_task(), bounded_task(),
+    tasks = [standin_task(PROP, "settings.display_spellings", _display_spellings, "ford.settings.ProjectSettings (real)",
+                          "`display` given as one string (fpm.toml, keyword) or in upper case selects what the one-element lower-case list selects", "4 spellings", 4),
+             a_task(PROP, settingsc.parse_to_dict), a_task(PROP, _meta), order_task(), argparse_task(), from_string_task(), paths_task(), bounded_task(),
              Task(f"{PROP}.B.meta_patterns", PROP, "META_RE / META_MORE_RE", lambda: metadata.rx_obligations(PROP))]
     meta = {
         "trusted_base": TRUSTED_BASE,
